@@ -61,3 +61,9 @@ claim("C19",
       "Reference = Python list of (key, object) with the documented rename rule; ties in the sort key may appear in any order.",
       "explicit-state BFS over operation histories on real objects with a lock-step reference model",
       "DESIGN.md section 4 C19")
+
+claim("C18",
+      "Every operating point of a lattice (evaporating temperature every 20 K inside the two-phase range with p_evap >= 1 kPa, lift {3,10,30,60} K, superheat/subcooling {0,5} K, efficiency {0.5,0.7,1}, duty {1,1000}) for 8 common refrigerants (quick, 5 k points) or every CoolProp pure/pseudo-pure fluid with a two-phase range > 40 K (thorough, 77 k points) through the real solve(): first law from totals and from state points, COP relation, entropy over compression and throttling, isenthalpic throttle, saturation pressures against an independent PropsSI call, emitted stream duties and monotonicity; and every sequence of <=3 stream-set requests (39 orders) on one solved cycle against the same request on a freshly solved cycle (H-mode, replayed on fresh objects).",
+      "CoolProp is the trusted property source (tolerances 1e-7..1e-6 relative). Findings for retrograde fluids and pseudo-pure blends are known findings matched by independently computed cause predicates (throttle outlet superheated / wet compressor discharge / pseudo-pure surrogate).",
+      "bounded-exhaustive operating-point enumeration + exhaustive request-order histories on the real cycle object",
+      "DESIGN.md section 4 C18")
